@@ -23,6 +23,7 @@ type SpecCtx struct {
 	InOld   bool
 	What    string
 	Pre     *State // state before the call (call-site assume clauses)
+	TypeEnv map[string]types.Type // type parameters of the generic function under verification
 }
 
 type specErr struct{ msg string }
@@ -78,6 +79,9 @@ func (c *SpecCtx) lookupType(name string) types.Type {
 		if b.Name() == name {
 			return b
 		}
+	}
+	if t, ok := c.TypeEnv[name]; ok {
+		return t
 	}
 	pkg := c.Pkg
 	if i := strings.Index(name, "."); i >= 0 {
@@ -445,7 +449,7 @@ func (c *SpecCtx) index(x, i *Val) *Val {
 		}
 	case *types.Map:
 		_, v := X.mapLoad(st, u, x.T, i.T)
-		return &Val{T: v, GT: u.Elem()}
+		return c.wellTyped(&Val{T: v, GT: u.Elem()})
 	case *types.Array:
 		return &Val{T: ts.Select(x.T, i.T), GT: u.Elem()}
 	case *types.Pointer:
@@ -789,7 +793,7 @@ func (c *SpecCtx) specCall(sf *SpecFunc, e *SExpr) *Val {
 		sorts = append(sorts, want)
 	}
 	resS := X.E.SortOf(resT)
-	deps := X.specDeps(sf, sc.Pkg)
+	deps := X.specDepsEnv(sf, sc.Pkg, c.TypeEnv)
 	var hargs []*Term
 	var hsorts []*Sort
 	for _, d := range deps {
@@ -808,7 +812,7 @@ func (c *SpecCtx) specCall(sf *SpecFunc, e *SExpr) *Val {
 				bargs = append(bargs, b)
 				hs.Heaps[d.name] = b
 			}
-			dc := &SpecCtx{X: X, St: hs, Old: hs, Vars: map[string]*Val{}, OldVars: map[string]*Val{}, Bound: map[string]*Val{}, Pkg: sc.Pkg, What: "definition of " + sf.Name}
+			dc := &SpecCtx{X: X, St: hs, Old: hs, Vars: map[string]*Val{}, OldVars: map[string]*Val{}, Bound: map[string]*Val{}, Pkg: sc.Pkg, What: "definition of " + sf.Name, TypeEnv: c.TypeEnv}
 			for i, p := range sf.Params {
 				b := ts.BoundVar(p.Name, sorts[i])
 				bound = append(bound, b)
@@ -830,6 +834,10 @@ type heapDep struct {
 
 // specDeps: the heap components the body of a recursive spec function reads (found by a trial evaluation).
 func (X *Exec) specDeps(sf *SpecFunc, pkg *types.Package) []heapDep {
+	return X.specDepsEnv(sf, pkg, nil)
+}
+
+func (X *Exec) specDepsEnv(sf *SpecFunc, pkg *types.Package, env map[string]types.Type) []heapDep {
 	if d, ok := X.E.specDeps[sf.Name]; ok {
 		return d
 	}
@@ -842,7 +850,7 @@ func (X *Exec) specDeps(sf *SpecFunc, pkg *types.Package) []heapDep {
 	saved := X.heapTrace
 	X.heapTrace = map[string]*Sort{}
 	hs := &State{PC: ts.True(), Heaps: map[string]*Term{}, Cells: map[*Cell]*Term{}, Clos: map[*Term]*Closure{}}
-	dc := &SpecCtx{X: X, St: hs, Old: hs, Vars: map[string]*Val{}, OldVars: map[string]*Val{}, Bound: map[string]*Val{}, Pkg: pkg, What: "dependencies of " + sf.Name}
+	dc := &SpecCtx{X: X, St: hs, Old: hs, Vars: map[string]*Val{}, OldVars: map[string]*Val{}, Bound: map[string]*Val{}, Pkg: pkg, What: "dependencies of " + sf.Name, TypeEnv: env}
 	for _, p := range sf.Params {
 		T := dc.lookupType(p.Type)
 		dc.Bound[p.Name] = &Val{T: ts.BoundVar(p.Name, X.E.SortOf(T)), GT: T}
